@@ -694,6 +694,29 @@ func c16Concurrent(r *R) {
 		fmt.Fprintln(os.Stderr, "C16: concurrent part failed:", err)
 		os.Exit(2)
 	}
+	// first use of each helper family by two goroutines, one fresh process per family
+	if cnt, err := exec.Command(bin, "C16first", "count").Output(); err == nil {
+		var n int
+		fmt.Sscan(strings.TrimSpace(string(cnt)), &n)
+		firstRuns := 0
+		for k := 0; k < n; k++ {
+			c2 := exec.Command(bin, "C16first", fmt.Sprint(k))
+			c2.Env = append(os.Environ(), "GOMAXPROCS=2", "VERIF_TSAN_DIR="+tsan, "GORACE=halt_on_error=0 exitcode=0 log_path="+tsan+"/tsan")
+			c2.Stderr = os.Stderr
+			o2, err := c2.Output()
+			if err != nil {
+				fmt.Fprintln(os.Stderr, "C16: first-use run failed:", err)
+				os.Exit(2)
+			}
+			firstRuns++
+			for _, line := range strings.Split(string(o2), "\n") {
+				if strings.HasPrefix(line, "F\t") {
+					out = append(out, []byte(line+"\n")...)
+				}
+			}
+		}
+		r.Set("first_use_by_two_goroutines_runs", firstRuns)
+	}
 	for _, line := range strings.Split(string(out), "\n") {
 		switch {
 		case strings.HasPrefix(line, "F\t"):
